@@ -5,6 +5,7 @@ from __future__ import annotations
 import copy
 
 from .core import outcome, octs
+from .probe import decode_other
 
 KIND_ORDER = ["eof", "finished", "ack", "metadata", "nak", "prompt", "keepalive", "filedata"]
 
@@ -196,6 +197,7 @@ def op_cfdphdr_rt(a):
         o = PduHeader(PduType(h["type"]), SegmentMetadataFlag(h["segmeta"]), h["dlen"], conf)
         raw = o.pack()
         d = PduHeader.unpack(bytes(raw) + bytes(a["sfx"]))
+        decode_other("cfdphdr", PduHeader.unpack)
         return {"octets": octs(raw), "hlen": o.header_len, "plen": o.packet_len, "cfglen": cfglen,
                 "rawlen": AbstractPduBase.header_len_from_raw(bytes(raw)), "dec": proj_hdr(d), "dhlen": d.header_len,
                 "repack": octs(d.pack())}
@@ -246,6 +248,7 @@ def op_tlv_rt(a):
         o = CfdpTlv(TlvType(a["t"]), bytes(a["v"]))
         raw = o.pack()
         d = CfdpTlv.unpack(bytes(raw) + bytes(a["sfx"]))
+        decode_other("tlv", CfdpTlv.unpack)
         return {"octets": octs(raw), "plen": o.packet_len, "dec": {"t": int(d.tlv_type), "v": octs(d.value)},
                 "dplen": d.packet_len, "eq": bool(d == o)}
     return outcome(run)
@@ -313,6 +316,7 @@ def op_ctlv_rt(a):
         plen = o.packet_len
         raw = o.pack()
         d = _via(a["cls"], bytes(raw) + bytes(a["sfx"]), a.get("via", "unpack"))
+        decode_other("ctlv:" + a["cls"], lambda b: _via(a["cls"], b, a.get("via", "unpack")))
         if type(d) is not ctlv_class(a["cls"]):
             return {"wrongclass": type(d).__name__}
         return {"octets": octs(raw), "plen": plen, "dec": proj_ctlv(a["cls"], d), "dplen": d.packet_len,
@@ -345,6 +349,7 @@ def op_pdu_rt(a):
         raw = obj.pack()
         caller = _snapshot(conf, params) == snap
         d = pdu_class(a["kind"]).unpack(bytes(raw) + bytes(a["sfx"]))
+        decode_other("pdu:" + a["kind"], pdu_class(a["kind"]).unpack)
         return {"octets": octs(raw), "plen": plen, "dflen": dflen, "hlen": hlen, "dec": proj_pdu(d),
                 "dplen": d.packet_len, "ddflen": d.pdu_data_field_len, "eq": bool(d == obj) and bool(obj == d),
                 "repack": outcome(lambda: octs(d.pack())), "caller": caller}
@@ -378,6 +383,8 @@ def op_pdu_fac(a):
         if d is None:
             return {"cls": "none"}
         h = PduFactory.from_raw_to_holder(buf)
+        for k in (a["kind"], "prompt" if a["kind"] != "prompt" else "eof"):
+            decode_other("pdu:" + k, PduFactory.from_raw)
         dt = PduFactory.pdu_directive_type(buf)
         hdt = h.pdu_directive_type
         return {"cls": kind_of(d), "eq": bool(d == obj) and bool(obj == d), "repack": outcome(lambda: octs(d.pack())),
